@@ -57,6 +57,9 @@ type phRun struct {
 	loop    map[string][]*gossipv1.SignedObservation
 	signed  map[string][]byte // digest name -> bytes of the observation message emitted when signing
 	bodies  map[string]*vhVAA // digest name -> body
+	down    bool                   // the store was closed by a StoreDown step
+	lastDB  map[string]interface{} // last projection of the store while it answered
+	ownDB   *db.Database
 }
 
 func phHash(parts ...interface{}) [32]byte {
@@ -197,11 +200,16 @@ func (r *phRun) projState(out []interface{}, panicked string) map[string]interfa
 		}
 	}
 	dbm := map[string]interface{}{}
-	for name, id := range r.idVals {
-		b, err := p.db.GetSignedVAABytes(id)
-		if err == nil {
-			dbm[name] = r.projVAA(b)
+	if r.down {
+		dbm = r.lastDB // a closed store cannot be read; its content cannot change either
+	} else {
+		for name, id := range r.idVals {
+			b, err := p.db.GetSignedVAABytes(id)
+			if err == nil {
+				dbm[name] = r.projVAA(b)
+			}
 		}
+		r.lastDB = dbm
 	}
 	loop := map[string]interface{}{}
 	for d, l := range r.loop {
@@ -476,6 +484,11 @@ func (r *phRun) step(st vhStep) {
 		}
 	case "CleanupTick":
 		call = func() { p.handleCleanup(ctx) }
+	case "StoreDown":
+		if r.ownDB == nil {
+			r.w.t.Fatalf("StoreDown in a scenario that does not own its store")
+		}
+		call = func() { r.ownDB.Close(); r.down = true }
 	default:
 		r.w.t.Fatalf("unknown scenario event %q", st.Ev)
 	}
@@ -499,7 +512,23 @@ func (w *phWorld) runScenario(sc vhScenario) {
 		digests: map[string]string{}, ids: map[string]string{}, idVals: map[string]vaa.VAAID{}, txs: map[string]string{},
 		loop: map[string][]*gossipv1.SignedObservation{}, signed: map[string][]byte{}, bodies: map[string]*vhVAA{}}
 	gst := common.NewGuardianSetState(nil)
-	r.p = NewProcessor(w.ctx, w.db, nil, nil, r.sendC, r.obsvC, r.reqC, nil, nil,
+	store := w.db
+	for _, st := range sc.Steps {
+		if st.Ev == "StoreDown" { // fault scenarios get a store of their own
+			own, err := db.Open(w.t.TempDir())
+			if err != nil {
+				w.t.Fatal(err)
+			}
+			r.ownDB, store = own, own
+			defer func() {
+				if !r.down {
+					own.Close()
+				}
+			}()
+			break
+		}
+	}
+	r.p = NewProcessor(w.ctx, store, nil, nil, r.sendC, r.obsvC, r.reqC, nil, nil,
 		&ecdsasigner.ECDSAPrivateKey{Value: w.keys.Key(w.self)}, gst,
 		reporter.EventListener(zap.NewNop()), nil, phGovChain, phGovEmitter)
 	w.trace.Emit(sc.ID, "Reset", map[string]interface{}{"self": w.self}, nil)
